@@ -8,7 +8,9 @@ import extract as X
 
 CACHE = os.path.join(VERIF, ".cache")
 GEN = os.path.join(VERIF, "gen")
-EVID = os.path.join(VERIF, "evidence")
+# VERIF_EVIDENCE_DIR: development runs against a seeded change (bin/seedrun) write their evidence elsewhere, so that the committed
+# evidence files are always the record of a run on the unchanged tree
+EVID = os.environ.get("VERIF_EVIDENCE_DIR") or os.path.join(VERIF, "evidence")
 REPLAYS = os.path.join(VERIF, "replays")
 
 # property -> units that own obligations for it (DESIGN.md section 5)
